@@ -2,6 +2,7 @@ import BM.Policy
 import BM.Sanitize
 import BM.Spec.Oracles
 import BM.Proofs.Rules
+import BM.Proofs.Switches
 /-
   C17: a policy is its rule set.  Proved on the builder model `applyOp`:
   * every switch-like option reflects its most recent setting (including the documented
@@ -16,6 +17,14 @@ import BM.Proofs.Rules
     spelling of names beyond `strings.ToLower` (`C17_case_independent`); the first pass of
     `sanitizeAttrs` accepts an attribute on element rules iff some contributed rule accepts it
     (`C17_accept_iff_contribution`);
+  * **the switch-like options are a state machine of their own** (`C17_switches_refinement`, from
+    Proofs/Switches): for every history the fourteen switches of the built policy are the start
+    switches run through `BuilderOp.setSwitches` — no table feeds back into them — and each holds
+    the value of the most recent call that set it (`C17_last_setting_wins`); whether the content
+    of an element is skipped is decided by the most recent Skip/AllowElementsContent call naming
+    it (`C17_skip_last_wins`); the registration of a URL scheme is the start registration run
+    through `setsScheme`, and a plain `AllowURLSchemes` naming the scheme forgets everything
+    registered for it before (`C17_scheme_refinement`, `C17_scheme_plain_forgets`);
   * policies are values: `applyOp` returns a new policy and cannot affect another one
     (trivial in the model; tied to the code by the interleaved-construction histories of
     the correspondence run).
@@ -392,5 +401,98 @@ example :
     (applyOps d { initialized := true } h1).elsAndAttrs.contains b!"b" = true ∧
     (applyOps d { initialized := true } h2).elsAndAttrs.contains b!"a" = true := by
   refine ⟨?_, ?_, ?_, ?_⟩ <;> rfl
+
+/-! ### switch-like options -/
+
+/-- **C17, switches**: refinement of the built policy's switches to the switch machine -/
+theorem C17_switches_refinement (p : Policy) (hi : p.initialized = true) (ops : List BuilderOp) :
+    (applyOps d p ops).switches = ops.foldl (fun s op => op.setSwitches s) p.switches :=
+  switches_applyOps d p hi ops
+
+
+/-- **C17, every switch reflects its most recent setting**, for every history on an initialised
+    policy.  `requireParseableURLs` is set by its own call and, as documented, switched on by every
+    link option, by `AllowRelativeURLs` and by the scheme registrations. -/
+theorem C17_last_setting_wins (p : Policy) (hi : p.initialized = true) (ops : List BuilderOp) :
+    let q := applyOps d p ops
+    let last {γ : Type} (eff : BuilderOp → Option γ) (start : γ) : γ := (ops.reverse.findSome? eff).getD start
+    q.addSpaces = last (fun | .addSpaceWhenStrippingTag b => some b | _ => none) p.addSpaces ∧
+    q.requireNoFollow = last (fun | .requireNoFollowOnLinks b => some b | _ => none) p.requireNoFollow ∧
+    q.requireNoFollowFullyQualifiedLinks =
+      last (fun | .requireNoFollowOnFullyQualifiedLinks b => some b | _ => none) p.requireNoFollowFullyQualifiedLinks ∧
+    q.requireNoReferrer = last (fun | .requireNoReferrerOnLinks b => some b | _ => none) p.requireNoReferrer ∧
+    q.requireNoReferrerFullyQualifiedLinks =
+      last (fun | .requireNoReferrerOnFullyQualifiedLinks b => some b | _ => none) p.requireNoReferrerFullyQualifiedLinks ∧
+    q.requireCrossOriginAnonymous =
+      last (fun | .requireCrossOriginAnonymous b => some b | _ => none) p.requireCrossOriginAnonymous ∧
+    q.addTargetBlankToFullyQualifiedLinks =
+      last (fun | .addTargetBlankToFullyQualifiedLinks b => some b | _ => none) p.addTargetBlankToFullyQualifiedLinks ∧
+    q.allowRelativeURLs = last (fun | .allowRelativeURLs b => some b | _ => none) p.allowRelativeURLs ∧
+    q.allowUnsafe = last (fun | .allowUnsafe b => some b | _ => none) p.allowUnsafe ∧
+    q.requireSandboxOnIFrame =
+      last (fun | .requireSandboxOnIFrame v => some (some v) | _ => none) p.requireSandboxOnIFrame ∧
+    q.requireParseableURLs =
+      last (fun | .requireParseableURLs b => some b
+                | .requireNoFollowOnLinks _ | .requireNoFollowOnFullyQualifiedLinks _
+                | .requireNoReferrerOnLinks _ | .requireNoReferrerOnFullyQualifiedLinks _
+                | .addTargetBlankToFullyQualifiedLinks _ | .allowRelativeURLs _
+                | .allowURLSchemes _ | .allowURLSchemeWithCustomPolicy _ _ => some true
+                | _ => none) p.requireParseableURLs := by
+  intro q last
+  have h := switches_applyOps d p hi ops
+  refine ⟨?_, ?_, ?_, ?_, ?_, ?_, ?_, ?_, ?_, ?_, ?_⟩
+  · exact (congrArg Switches.addSpaces h).trans
+      (lastSetting Switches.addSpaces _ (fun op s => by cases op <;> rfl) ops p.switches)
+  · exact (congrArg Switches.requireNoFollow h).trans
+      (lastSetting Switches.requireNoFollow _ (fun op s => by cases op <;> rfl) ops p.switches)
+  · exact (congrArg Switches.requireNoFollowFullyQualifiedLinks h).trans
+      (lastSetting Switches.requireNoFollowFullyQualifiedLinks _ (fun op s => by cases op <;> rfl) ops p.switches)
+  · exact (congrArg Switches.requireNoReferrer h).trans
+      (lastSetting Switches.requireNoReferrer _ (fun op s => by cases op <;> rfl) ops p.switches)
+  · exact (congrArg Switches.requireNoReferrerFullyQualifiedLinks h).trans
+      (lastSetting Switches.requireNoReferrerFullyQualifiedLinks _ (fun op s => by cases op <;> rfl) ops p.switches)
+  · exact (congrArg Switches.requireCrossOriginAnonymous h).trans
+      (lastSetting Switches.requireCrossOriginAnonymous _ (fun op s => by cases op <;> rfl) ops p.switches)
+  · exact (congrArg Switches.addTargetBlankToFullyQualifiedLinks h).trans
+      (lastSetting Switches.addTargetBlankToFullyQualifiedLinks _ (fun op s => by cases op <;> rfl) ops p.switches)
+  · exact (congrArg Switches.allowRelativeURLs h).trans
+      (lastSetting Switches.allowRelativeURLs _ (fun op s => by cases op <;> rfl) ops p.switches)
+  · exact (congrArg Switches.allowUnsafe h).trans
+      (lastSetting Switches.allowUnsafe _ (fun op s => by cases op <;> rfl) ops p.switches)
+  · exact (congrArg Switches.requireSandboxOnIFrame h).trans
+      (lastSetting Switches.requireSandboxOnIFrame _ (fun op s => by cases op <;> rfl) ops p.switches)
+  · exact (congrArg Switches.requireParseableURLs h).trans
+      (lastSetting Switches.requireParseableURLs _ (fun op s => by cases op <;> rfl) ops p.switches)
+
+/-- **C17, skip / keep content reflects the most recent call naming the element** -/
+theorem C17_skip_last_wins (p : Policy) (hi : p.initialized = true) (ops : List BuilderOp) (el : Bytes) :
+    (applyOps d p ops).skips el = (ops.reverse.findSome? (BuilderOp.setsSkip el)).getD (p.skips el) :=
+  skips_applyOps d p hi ops el
+
+/-- **C17, scheme registrations**: per scheme, a refinement to `setsScheme` -/
+theorem C17_scheme_refinement (p : Policy) (hi : p.initialized = true) (ops : List BuilderOp) (s : Bytes) :
+    (applyOps d p ops).allowURLSchemes.get? s = ops.foldl (fun st op => op.setsScheme s st) (p.allowURLSchemes.get? s) :=
+  scheme_applyOps d p hi ops s
+
+/-- a plain `AllowURLSchemes` naming the scheme forgets whatever was registered for it before:
+    what comes before that call in the history is irrelevant for the scheme -/
+theorem C17_scheme_plain_forgets (p p' : Policy) (hi : p.initialized = true) (hi' : p'.initialized = true)
+    (pre pre' post : List BuilderOp) (names : List Bytes) (s : Bytes)
+    (hs : (names.map toLowerName).contains s = true) :
+    (applyOps d p (pre ++ .allowURLSchemes names :: post)).allowURLSchemes.get? s =
+    (applyOps d p' (pre' ++ .allowURLSchemes names :: post)).allowURLSchemes.get? s := by
+  rw [scheme_applyOps d p hi, scheme_applyOps d p' hi']
+  simp only [List.foldl_append, List.foldl_cons, BuilderOp.setsScheme, hs, ↓reduceIte]
+
+/-- non-vacuity: a toggled history; the last settings are the ones in force -/
+example :
+    let d : Bytes → Bytes → Bool := fun _ _ => false
+    let q := applyOps d { initialized := true }
+      [.addSpaceWhenStrippingTag true, .requireNoFollowOnLinks true, .requireParseableURLs false,
+       .skipElementsContent [b!"DIV"], .addSpaceWhenStrippingTag false, .allowElementsContent [b!"div"],
+       .allowURLSchemeWithCustomPolicy b!"data" (fun _ => false), .allowURLSchemes [b!"DATA"]]
+    q.addSpaces = false ∧ q.requireNoFollow = true ∧ q.requireParseableURLs = true ∧ q.skips b!"div" = false ∧
+    (q.allowURLSchemes.get? b!"data").map List.length = some 0 := by
+  refine ⟨?_, ?_, ?_, ?_, ?_⟩ <;> rfl
 
 end BM.Props
